@@ -61,7 +61,7 @@ impl Property for C08 {
         let name = ty.short();
         let mut t = Tape::new(tape);
         let joined = t.bool();
-        let msgs = gen_msgs(ty, &mut t, 5, 300);
+        let msgs = gen_msgs_ext(ty, &mut t, 5, 300, true);
         let max_msg_len = match t.below(4) {
             0 => msgs.largest,
             1 => msgs.largest + 1,
@@ -80,8 +80,9 @@ impl Property for C08 {
         let pendings = wscript.iter().filter(|w| **w == WOut::Pending).count() + rscript.iter().filter(|r| **r == ROut::Pending).count() + fscript.len();
         let ctx = |extra: String| {
             format!(
-                "[messages {:?}, starts {:?}, max_msg_len {}, write script {:?}, read script {:?}, flush script {:?}{}]",
+                "[messages {:?} (post-ops on the send guard: {:?}), starts {:?}, max_msg_len {}, write script {:?}, read script {:?}, flush script {:?}{}]",
                 msgs.values.iter().map(|v| v.show()).collect::<Vec<_>>(),
+                msgs.post_ops,
                 msgs.starts,
                 max_msg_len,
                 wscript,
@@ -96,7 +97,10 @@ impl Property for C08 {
             let mut sink = ScriptSink::new(wscript.clone(), WOut::Accept(usize::MAX), budget);
             sink.flush_script = fscript.clone();
             st.eval(1);
-            let srep = match lib(|| sh.io_async_send(&msgs.values, &routes, max_msg_len, &mut sink, max_polls, false)) {
+            msgs.install_post_ops();
+            let srep = lib(|| sh.io_async_send(&msgs.initial, &routes, max_msg_len, &mut sink, max_polls, false));
+            Msgs::clear_post_ops();
+            let srep = match srep {
                 Ok(x) => x,
                 Err(p) => crate::vfail!("panic", "{}: async sender panicked: {} {}", name, p, ctx(String::new())),
             };
@@ -107,9 +111,10 @@ impl Property for C08 {
             if let Err((k, m)) = all_sent(&name, &sends, msgs.values.len()) {
                 crate::vfail!(k, "{} {}", m, ctx(String::new()));
             }
-            if let Err(m) = msgs.check_stream(&sink.data, msgs.values.len()) {
-                crate::vfail!("stream", "{}: {} {}", name, m, ctx(String::new()));
-            }
+            let real_starts = match msgs.frame_stream(ty, &sink.data, msgs.values.len()) {
+                Ok(s) => s,
+                Err(m) => crate::vfail!("stream", "{}: {} {}", name, m, ctx(String::new())),
+            };
             // flush after the last write of every message
             let mut written = 0;
             let mut mi = 0;
@@ -121,7 +126,7 @@ impl Property for C08 {
                             crate::vfail!("no-flush", "{}: message #{} was completed without a successful poll_flush before the next write {}", name, mi - 1, ctx(String::new()));
                         }
                         written += accepted;
-                        while mi < msgs.values.len() && written >= msgs.starts[mi + 1] {
+                        while mi < msgs.values.len() && written >= real_starts[mi + 1] {
                             mi += 1;
                             need_flush = true;
                         }
@@ -146,7 +151,7 @@ impl Property for C08 {
                 crate::vfail!(k, "{} {}", m, ctx(String::new()));
             }
             // Pending strictly inside a message on each side?
-            let inside = |positions: Vec<usize>| positions.iter().any(|p| !msgs.starts.contains(p));
+            let inside = |positions: Vec<usize>| positions.iter().any(|p| !real_starts.contains(p));
             let mut wpos = vec![];
             let mut acc = 0;
             for e in &sink.log {
@@ -186,7 +191,10 @@ impl Property for C08 {
             let schedule = t.take(slen);
             let max_polls = 8 * (total + 1) + pendings * 2 + schedule.len() + 64;
             st.eval(1);
-            let rep = match lib(|| sh.io_async_joined(&msgs.values, &routes, max_msg_len, cap, wscript.clone(), rscript.clone(), fscript.clone(), &schedule, max_polls)) {
+            msgs.install_post_ops();
+            let rep = lib(|| sh.io_async_joined(&msgs.initial, &routes, max_msg_len, cap, wscript.clone(), rscript.clone(), fscript.clone(), &schedule, max_polls));
+            Msgs::clear_post_ops();
+            let rep = match rep {
                 Ok(r) => r,
                 Err(p) => crate::vfail!("panic", "{}: joined async run panicked: {} {}", name, p, ctx(format!(", capacity {}, schedule {:?}", cap, schedule))),
             };
@@ -208,7 +216,7 @@ impl Property for C08 {
             if let Err((k, m)) = all_sent(&name, &rep.sends, msgs.values.len()) {
                 crate::vfail!(k, "{} {}", m, ctx(extra));
             }
-            if let Err(m) = msgs.check_stream(&rep.written, msgs.values.len()) {
+            if let Err(m) = msgs.frame_stream(ty, &rep.written, msgs.values.len()) {
                 crate::vfail!("stream", "{}: {} {}", name, m, ctx(extra));
             }
             if let Err((k, m)) = check_received(&name, &msgs.values, &rep.recvs, true) {
